@@ -41,7 +41,7 @@ BOUND = 200
 
 
 def gen_cases(tier, rng):
-    n_utmi, n_win = {"quick": (120, 40), "widen": (400, 100)}.get(tier, (900, 300))
+    n_utmi, n_win = {"quick": (120, 40), "widen": (400, 100)}.get(tier, (450, 150))
     out = []
     for k in range(n_utmi):
         out.append({"kind": "utmi", "seed": rng.u64(), "k": k})
